@@ -2662,7 +2662,7 @@ class Interp:
                 return r
             out_ = kw.pop('out', None) if isinstance(kw.get('out'), Arr) else None
             wh_ = None
-            if 'where' in kw and f.name.split('.')[0] in ('numpy', 'np') and f.name.split('.')[-1] != 'where':
+            if 'where' in kw and f.name.split('.')[0] in ('numpy', 'np') and f.name.split('.')[-1] not in ('where', 'copyto', 'putmask'):
                 wh_ = self._as_arr(kw.pop('where'))
                 if wh_ is True or (isinstance(wh_, Arr) and wh_.poly == Poly.const(1)):
                     wh_ = None
@@ -2770,6 +2770,11 @@ class Interp:
             if last in ('sum', 'any', 'all', 'max', 'min', 'nanmax', 'nanmin', 'amax', 'amin'):
                 kind = {'amax': 'max', 'amin': 'min'}.get(last, last)
                 return self._reduce(args[0], kw.get('axis', args[1] if len(args) > 1 else None), kind, e)
+            if last == 'nansum':
+                # the sum of the terms that are not NaN: sum(x * [not isnan(x)])
+                x = self._as_arr(args[0])
+                if isinstance(x, Arr) and x.mask is None:
+                    return self._reduce(x.with_(poly=x.poly * alg.b_not(alg.mk_ind('isnan', x.poly))), kw.get('axis', args[1] if len(args) > 1 else None), 'sum', e)
             if last in ('log10', 'log', 'abs', 'absolute', 'sqrt', 'isinf', 'isnan', 'isfinite', 'ceil', 'floor', 'exp'):
                 x = self._as_arr(args[0])
                 if isinstance(x, Unk):
